@@ -759,13 +759,39 @@ class MathProxy:
 
     def __getattr__(self, name):
         real = getattr(math, name)
-        if name in ("exp", "log", "log10", "sqrt", "cos", "sin"):
+        if name in ("exp", "log", "log10", "sqrt", "cos", "sin", "tan", "atan", "asin", "acos", "log2"):
             def f(x, _n=name):
                 if isinstance(x, (SR, SB)):
-                    return sym.kfun(_n, x)
+                    return sym.kfun({"atan": "arctan", "asin": "arcsin", "acos": "arccos"}.get(_n, _n), x)
                 return real(x)
             return f
-        return real
+        table = {"floor": sym._e_floor, "ceil": sym._e_ceil, "trunc": sym._e_trunc, "fabs": abs,
+                 "isnan": sym._e_isnan, "isfinite": sym._e_isfinite, "isinf": sym._e_isinf,
+                 "hypot": sym._e_hypot, "pow": sym.spow, "fmod": None, "isclose": None}
+        if name in table and table[name] is not None:
+            impl = table[name]
+
+            def g(*a, _impl=impl, _real=real):
+                if any(isinstance(x, (SR, SB)) for x in a):
+                    return _impl(*a)
+                return _real(*a)
+            return g
+        if name == "isclose":
+            def isclose_(a, b, *, rel_tol=1e-09, abs_tol=0.0):
+                if not any(isinstance(x, (SR, SB)) for x in (a, b, rel_tol, abs_tol)):
+                    return real(a, b, rel_tol=rel_tol, abs_tol=abs_tol)
+                # documented: abs(a-b) <= max(rel_tol * max(abs(a), abs(b)), abs_tol)
+                a, b = lift(a), lift(b)
+                d = abs(a - b)
+                big = sym._e_max(abs(a), abs(b))
+                return sym.Or(d <= rel_tol * big, d <= abs_tol)
+            return isclose_
+
+        def guard(*a, _real=real, **k):
+            if any(isinstance(x, (SR, SB)) for x in a):
+                raise HarnessError(f"math.{name} has no symbolic implementation")
+            return _real(*a, **k)
+        return guard if callable(real) else real
 
 
 MATHX = MathProxy()
